@@ -137,7 +137,7 @@ def pair_case(draw):
 
 @st.composite
 def composition_case(draw):
-    prof = docs.profile(max_schemas=5, max_props=3, max_ops=0, max_depth=1, allof=True)
+    prof = docs.profile(max_schemas=5, max_props=3, max_ops=0, max_depth=1, allof=True, affix_names=2, allof_one_in=2)
     ir = draw(docs.doc_ir(prof, min_schemas=3, min_ops=0))
     objs = [i for i, (n, s) in enumerate(ir["schemas"]) if s["k"] == "object"]
     # force at least one composition, possibly with 2 parents and inline members; allow "sibling" style
@@ -160,7 +160,7 @@ def composition_case(draw):
 
 
 def strategy(tier):
-    return st.one_of(pair_case(), pair_case(), composition_case())
+    return st.one_of(pair_case(), composition_case())
 
 
 # ------------------------------------------------------------------------------------------------ semantic reading
@@ -427,7 +427,10 @@ def _run_composition(case, ctx):
                 cls = getattr(models, name, None)
                 if cls is None:
                     if name in res.diag_text():
+                        # these compositions are valid by construction (acyclic, no shared property names): the members have a
+                        # conjunction, so refusing one - however audibly - does not deliver it
                         ctx.label("diagnosed")
+                        ctx.violation("composed.valid_composition_generated", site, f"{name} refused: {res.diag_text()[:200]}")
                     else:
                         ctx.violation("composed.accounted_for", site, f"{name} neither generated nor diagnosed")
                     continue
